@@ -20,11 +20,9 @@ RULE = ("a universe of 12-20 objects (lanelets with sign/light references, traff
         "objects and adding removed ones again; a case is one (universe, history); non-trivial = every case (each has >= 1 add "
         "and is checked after every step); distinct = distinct canonical JSON")
 ASSUMPTIONS = [
-    "removal operations are applied to objects of the scenario: an argument is admissible if the scenario contains an object of "
-    "that kind with that id (for an intersection: with the same incoming ids) or if its id is not used at all (KeyError path); "
-    "calling remove_traffic_sign/light/lanelet/intersection with a foreign object whose id belongs to a contained object of "
-    "ANOTHER kind (or remove_obstacle with an obstacle whose id belongs to an obstacle of another role) is not 'removing an "
-    "object' and is outside the property (WfOp in lean/CRProps/C09.lean); such steps are skipped and counted as excluded",
+    "remove_obstacle looks an obstacle up by id: steps that hand it an obstacle whose id is held by a contained obstacle of "
+    "ANOTHER role are skipped (the code then reads role-specific attributes of the argument and raises AttributeError "
+    "before anything changes; counted as excluded) — every other removal argument, contained or not, is exercised",
     "obstacles are generated without lanelet assignment (initial_shape_lanelet_ids=None, no prediction), so the "
     "obstacle-on-lanelet registries (property C07) stay out of the way",
     "a lanelet object is member of at most one network at a time (steps that would alias one mutable Lanelet into two "
@@ -261,26 +259,15 @@ def snapshot(sc):
 
 
 def wf_removal(kind, objs, snap):
-    """Admissible removal arguments (see ASSUMPTIONS): contained by id (+ incomings), or id entirely unused."""
-    used = set(snap["ids"])
+    """remove_obstacle looks the obstacle up by id: the holder of the id (if any) has to be an obstacle of the same role,
+    otherwise the code reads role-specific attributes of the argument (AttributeError before anything changes — not an id
+    matter).  Every other removal argument is admissible, contained or not."""
+    if kind != "obstacle":
+        return True
     for o in objs:
-        if kind == "obstacle":
-            # looked up by id: the holder of the id (if any) has to be an obstacle of the same role, otherwise the code
-            # reads role-specific attributes of the argument (AttributeError before anything changes; not an id matter)
-            role = built_kind(o)
-            if any(c.obstacle_id == o.obstacle_id for r2 in OBST if r2 != role for c in snap["cont"][r2]):
-                return False
-            continue
-        if kind == "inter":
-            have = [(c.intersection_id, [i.incoming_id for i in c.incomings]) for c in snap["cont"]["inter"]]
-            if (o.intersection_id, [i.incoming_id for i in o.incomings]) in have or o.intersection_id not in used:
-                continue
+        role = built_kind(o)
+        if any(c.obstacle_id == o.obstacle_id for r2 in OBST if r2 != role for c in snap["cont"][r2]):
             return False
-        mine = {ids_of(c)[0] for c in snap["cont"][kind]}
-        i = ids_of(o)[0]
-        if i in mine or i not in used:
-            continue
-        return False
     return True
 
 
